@@ -203,6 +203,8 @@ def build(src):
                 rules=[Rule("D5.lock_guard", r"std::lock_guard<std::mutex>\s+(\w+)\(%s\(\)\);" % acc, r"struct nmutex *\1 = %s_mutex(); nmutex_lock(\1);   /* unlocked where \1 goes out of scope */" % nm),
                        Rule("D5.unique_lock-deferred", r"std::unique_lock<std::mutex>\s+(\w+)\(%s\(\),\s*std::defer_lock\);" % acc,
                             r"struct nmutex *\1 = %s_mutex(); nbool \1_owns = 0;   /* released if owned where \1 goes out of scope */" % nm),
+                       Rule("D5.unique_lock-try_to_lock", r"std::unique_lock<std::mutex>\s+(\w+)\(%s\(\),\s*std::try_to_lock\);" % acc,
+                            r"struct nmutex *\1 = %s_mutex(); nbool \1_owns = 0;   /* released if owned where \1 goes out of scope */ \1_owns = nmutex_try_lock(\1);" % nm),
                        Rule("D5.unique_lock-lock", r"\b(\w+)\.lock\(\);", r"{ nmutex_lock(\1); \1_owns = 1; }"),
                        Rule("D5.unique_lock-try_lock", r"\b(\w+)\.try_lock\(\);", r"{ \1_owns = nmutex_try_lock(\1); }"),
                        Rule("D5.lock_guard-temporary", r"std::lock_guard<std::mutex>\s*\(%s\(\)\);" % acc, "{ struct nmutex *nitro_t = %s_mutex(); nmutex_lock(nitro_t); nmutex_unlock(nitro_t); }   /* unnamed temporary: unlocked at once */" % nm),
